@@ -3065,6 +3065,9 @@ class Parser:
                     prop.set("data_consistency", self._advance_any() and self._prev.text.upper())
                 elif self._match_text_seq("HISTORY_RETENTION_PERIOD", "="):
                     prop.set("retention_period", self._parse_retention_period())
+                else:
+                    self.raise_error("Unable to parse SYSTEM_VERSIONING option")
+                    break
 
                 self._match(TokenType.COMMA)
 
@@ -3081,6 +3084,9 @@ class Parser:
                     prop.set("filter_column", self._parse_column())
                 elif self._match_text_seq("RETENTION_PERIOD", "="):
                     prop.set("retention_period", self._parse_retention_period())
+                else:
+                    self.raise_error("Unable to parse DATA_DELETION option")
+                    break
 
                 self._match(TokenType.COMMA)
 
